@@ -179,7 +179,7 @@ def run_queries(base, queries, mir, timeout_ms, fast_check, prop, cube_name, kno
                     rec['inconclusive'].append(f'{q.name}: the solver found a counterexample, but none inside the subset of inputs the native replay can rebuild ({r3}); model: ' + str(model)[:600]); continue
                 model = m3
             if q.world is None or not q.ops:
-                rec['inconclusive'].append(f'{q.name}: the solver found a counterexample but this obligation has no native replay; model: ' + str(model)[:800]); continue
+                rec['inconclusive'].append(f'{q.name}: the solver found a counterexample but this obligation has no native replay; ' + (json.dumps(q.describe(model)) if q.describe else 'model: ' + str(model)[:800])); continue
             os.makedirs(replay_dir, exist_ok=True)
             path = os.path.join(replay_dir, f'{prop}_{cube_name}_{q.name}.json'.replace(' ', '_').replace('/', '_'))
             ok, det = replay_model(q, model, mir, fast_check, keep_path=path); rec['replayed'] += 1
